@@ -77,13 +77,14 @@ def DueBy (L : Int) (s : HSt) : Prop :=
 def DInv (L : Int) (s : HSt) : Prop := WF s ∧ Tracked s ∧ DueBy L s
 
 /-- the steps of a fault-free daemon life with a monotone clock: time advances, wake-up computations, ALRM,
-passes on either channel, clean restarts -/
+(uninterrupted) passes on either channel, clean restarts, and new messages arriving through todo/ -/
 inductive BStep where
   | tick (d : Nat)
   | wake
   | alrm
   | pass (c : Chan) (letters : List Byte)
   | restart
+  | arrive (id n0 n1 : Nat)
   deriving Repr
 
 def BStep.steps (s : HSt) : BStep → List Step
@@ -92,8 +93,14 @@ def BStep.steps (s : HSt) : BStep → List Step
   | .alrm => [.alrm]
   | .pass c l => [.pass c l .none]
   | .restart => [.fin, .load]
+  | .arrive id n0 n1 => [.arrive id n0 n1]
 
 def runB (s : HSt) (l : List BStep) : HSt := l.foldl (fun s x => run s (x.steps s)) s
+
+/-- the persisted due times a new process finds are not beyond the expiry bound (or not in the future): what `pqstart()`
+needs for `DueBy` — true of every queue the daemon itself wrote under `DueBy` (`pqfinish` persists heap entries) -/
+def MtimesDueBy (L : Int) (s : HSt) : Prop :=
+  ∀ m ∈ s.msgs, ∀ c, (m.recs c).isSome = true → m.mt c ≤ expiryBound L m.birth c ∨ m.mt c ≤ s.clock
 
 /-- every pass of the history is answered with K, Z or D only -/
 def allKZD (l : List BStep) : Prop := ∀ x ∈ l, ∀ c letters, x = .pass c letters → lettersKZD letters
